@@ -487,6 +487,12 @@ func (ex *Explorer) AtomOf(st *State, v ssa.Value) *Atom {
 					if ce.V != nil && definitelyNonNil(ce.V) {
 						return &Atom{Const: bptr(neg)}
 					}
+					// the helper returned a boxed concrete value: a non-nil interface whatever it boxes
+					if ce.V0 != nil {
+						if _, boxed := ex.resolveKeepBox(nil, ce.V0).(*ssa.MakeInterface); boxed {
+							return &Atom{Const: bptr(neg)}
+						}
+					}
 					return &Atom{Kind: "nil", X: ce.S, Neg: neg, Deps: ce.Deps, Reads: ce.Reads, XV: l}
 				}
 				if ld, ok := l.(*ssa.UnOp); ok && ld.Op == token.MUL {
